@@ -377,3 +377,61 @@ func init() {
 		Why: "patterns are matched against the argument string including the trailing <cr>",
 		Edits: []Edit{{File: "cmds/server/config/authorizers/stringy/command.go", Old: `regexp.MatchString(regexish, a.body.Args.CommandArgsNoLE())`, New: `regexp.MatchString(regexish, a.body.Args.CommandArgs())`}}})
 }
+
+func init() {
+	// ---- C15 / C16 -------------------------------------------------------------------------
+	addMutant(Mutant{Name: "c15-revert-closure-capture", Props: []string{"C15", "C13"}, Rule: "R-GOCAPTURE", KeySub: "updates",
+		Why: "the lookup goroutine closes over providers/prefixDeny/prefixAllow again",
+		Edits: []Edit{{File: "cmds/server/loader/loader.go", Old: `			go func(providers []tq.SecretProvider, prefixDeny, prefixAllow *prefixFilter) {`, New: `			go func() {`},
+			{File: "cmds/server/loader/loader.go", Old: `			}(providers, prefixDeny, prefixAllow)`, New: `			}()`}}})
+	addMutant(Mutant{Name: "c15-revert-atomic-counter", Props: []string{"C15"}, Rule: "R-SHAREDWRITE", KeySub: "waitGroup",
+		Why: "the connection counter is a plain integer again",
+		Edits: []Edit{{File: "sessions.go", Old: `	atomic.AddInt64(&w.active, 1)`, New: `	w.active++
+	_ = atomic.LoadInt64(&w.active)`},
+			{File: "sessions.go", Old: `	atomic.AddInt64(&w.active, -1)`, New: `	w.active--`}}})
+	addMutant(Mutant{Name: "c15-revert-trimspace", Props: []string{"C15", "C09"}, Rule: "R-SHAREDWRITE", KeySub: "TrimSpace",
+		Why: "evaluate() trims the shared rule patterns in place again",
+		Edits: []Edit{{File: "cmds/server/config/authorizers/stringy/command.go", Old: `		c.Name = strings.TrimSpace(c.Name)
+		if c.Name == "*" {`, New: `		c.TrimSpace()
+		if c.Name == "*" {`}}})
+	addMutant(Mutant{Name: "c15-session-table-unlocked-read", Props: []string{"C15"}, Rule: "R-MUTEX", KeySub: "update",
+		Why: "update() reads the table without taking the lock",
+		Edits: []Edit{{File: "sessions.go", Old: `func (s *sessions) update(h Header, n Handler) {
+	s.Lock()
+	defer s.Unlock()
+`, New: `func (s *sessions) update(h Header, n Handler) {
+`}}})
+	addMutant(Mutant{Name: "c15-global-last-user", Props: []string{"C15", "C09"}, Rule: "R-SHAREDWRITE", KeySub: "",
+		Why: "a handler remembers the last user name in a package-level variable",
+		Edits: []Edit{{File: "cmds/server/handlers/authen_pap.go", Old: `	a.RecordCtx(&request, tq.ContextUser, tq.ContextRemoteAddr, tq.ContextPort, tq.ContextPrivLvl)
+	// missing password`, New: `	lastPAPUser = string(body.User)
+	a.RecordCtx(&request, tq.ContextUser, tq.ContextRemoteAddr, tq.ContextPort, tq.ContextPrivLvl)
+	// missing password`},
+			{File: "cmds/server/handlers/authen_pap.go", Old: `// NewAuthenticatePAP creates`, New: `var lastPAPUser string
+
+// NewAuthenticatePAP creates`}}})
+	addMutant(Mutant{Name: "c16-revert-fresh-decode-yaml", Props: []string{"C15", "C16"}, Rule: "R-FRESHDECODE", KeySub: "yaml",
+		Why: "the YAML loader decodes into its long-lived embedded ServerConfig again",
+		Edits: []Edit{{File: "cmds/server/loader/yaml/yaml.go", Old: `	if err := yaml.Unmarshal(b, &c); err != nil {`, New: `	c = l.ServerConfig
+	if err := yaml.Unmarshal(b, &c); err != nil {`}}})
+	addMutant(Mutant{Name: "c16-decode-into-field-json", Props: []string{"C15", "C16"}, Rule: "R-FRESHDECODE", KeySub: "json",
+		Why: "the JSON loader decodes into the embedded ServerConfig",
+		Edits: []Edit{{File: "cmds/server/loader/json/json.go", Old: `	if err := json.Unmarshal(b, &c); err != nil {`, New: `	if err := json.Unmarshal(b, &l.ServerConfig); err != nil {`}}})
+	addMutant(Mutant{Name: "c16-publish-before-check", Props: []string{"C16"}, Rule: "R-FRESHDECODE", KeySub: "",
+		Why: "the configuration is published before the minimum-content check on users",
+		Edits: []Edit{{File: "cmds/server/loader/yaml/yaml.go", Old: `	if len(c.Users) < 1 {
+		return fmt.Errorf("no users were unmarshalled from config, cannot serve")
+	}
+	l.ServerConfig = c
+	l.config <- c`, New: `	l.ServerConfig = c
+	l.config <- c
+	if len(c.Users) < 1 {
+		return fmt.Errorf("no users were unmarshalled from config, cannot serve")
+	}`}}})
+	addMutant(Mutant{Name: "c16-providers-appended", Props: []string{"C16"}, Rule: "R-FRESHDECODE", KeySub: "consumer-replaces",
+		Why: "providers of a new configuration are appended to the old list",
+		Edits: []Edit{{File: "cmds/server/loader/loader.go", Old: `			providers = l.build(c)`, New: `			providers = append(providers, l.build(c)...)`}}})
+	addMutant(Mutant{Name: "c16-publish-old-struct", Props: []string{"C16"}, Rule: "R-FRESHDECODE", KeySub: "published",
+		Why: "the loader publishes its long-lived copy rather than the fresh value",
+		Edits: []Edit{{File: "cmds/server/loader/json/json.go", Old: `	l.config <- c`, New: `	l.config <- l.ServerConfig`}}})
+}
